@@ -3709,15 +3709,9 @@ class Score(object):
         self.parts[index] = part
 
     def __iter__(self) -> Iterator[Part]:
-        self.iter_idx = 0
-        return self
-
-    def __next__(self) -> Part:
-        if self.iter_idx == len(self.parts):
-            raise StopIteration
-        res = self[self.iter_idx]
-        self.iter_idx += 1
-        return res
+        # a fresh iterator per call: nested or interleaved iterations over the
+        # same score must not share a cursor
+        return iter(self.parts)
 
     def __len__(self) -> int:
         """
